@@ -335,6 +335,70 @@ theorem sim3_accepts_scaled_rotation (r : M3 ℚ) (t : V3 ℚ) (s : ℚ) (h : Is
   simp only [Mat4.sim3, Pose.sim3]
   rw [M3.smul_smul, one_div, inv_mul_cancel₀ hs, M3.one_smul', so3_accepts_rotations r h]; simp [bottomOk]
 
+/-! ### the angle itself, over ℝ: `angleR a b = atan2(√s², c)` -/
+section real
+open Real
+
+/-- **range** `[0, π]` (for all matrices: the imaginary part `√s²` is non-negative) -/
+theorem angle_range_real (a b : M3 ℝ) : 0 ≤ angleR a b ∧ angleR a b ≤ π :=
+  atan2_range _ _ (Real.sqrt_nonneg _)
+
+/-- for rotations the angle is `arccos((tr(AᵀB) − 1)/2)`: its cosine is the core's `c`, its
+squared sine the core's `s²` -/
+theorem angle_eq_arccos (a b : M3 ℝ) (ha : IsRot a) (hb : IsRot b) :
+    angleR a b = Real.arccos (relSo3 a b).angleCore.1 ∧
+    Real.cos (angleR a b) = (relSo3 a b).angleCore.1 ∧
+    Real.sin (angleR a b) ^ 2 = (relSo3 a b).angleCore.2 := by
+  obtain ⟨h1, h2, h3, h4, _⟩ := angle_range a b ha hb
+  set c := (relSo3 a b).angleCore.1 with hc
+  set s2 := (relSo3 a b).angleCore.2 with hs
+  have hcos : Real.cos (Real.arccos c) = c := Real.cos_arccos h2 h3
+  have hsin : Real.sin (Real.arccos c) = √s2 := by
+    rw [Real.sin_arccos]; congr 1; linarith
+  have hmem : Real.arccos c ∈ Set.Ioc (-π) π :=
+    ⟨by linarith [Real.arccos_nonneg c, Real.pi_pos], Real.arccos_le_pi c⟩
+  have key : angleR a b = Real.arccos c := by
+    unfold angleR
+    rw [← hc, ← hs, ← hsin, ← hcos, Real.arccos_cos (Real.arccos_nonneg c) (Real.arccos_le_pi c)]
+    rw [hcos]
+    have := atan2_cos_sin (Real.arccos c) hmem
+    rw [hcos] at this
+    exact this
+  refine ⟨key, by rw [key, hcos], ?_⟩
+  rw [key, hsin, Real.sq_sqrt h4]
+
+/-- **symmetric** -/
+theorem angle_symm_real (a b : M3 ℝ) : angleR b a = angleR a b := by
+  unfold angleR; rw [angle_symm]
+
+/-- **left-invariant** -/
+theorem angle_left_invariant_real (t a b : M3 ℝ) (ht : IsOrtho t) :
+    angleR (t.mul a) (t.mul b) = angleR a b := by
+  unfold angleR; rw [angle_left_invariant t a b ht]
+
+/-- **right-invariant** -/
+theorem angle_right_invariant_real (t a b : M3 ℝ) (ht : IsOrtho t) :
+    angleR (a.mul t) (b.mul t) = angleR a b := by
+  unfold angleR; rw [angle_right_invariant t a b ht]
+
+/-- **zero only for equal rotations** -/
+theorem angle_zero_iff_eq_real (a b : M3 ℝ) (ha : IsRot a) (hb : IsRot b) :
+    angleR a b = 0 ↔ a = b := by
+  obtain ⟨h1, h2, h3, h4, _⟩ := angle_range a b ha hb
+  unfold angleR
+  rw [atan2_eq_zero_iff, ← angle_cos_one_iff_eq a b ha.1 hb.1]
+  constructor
+  · rintro ⟨hc, hs⟩
+    have hs0 : (relSo3 a b).angleCore.2 = 0 := le_antisymm (Real.sqrt_eq_zero'.mp hs) h4
+    rw [hs0] at h1
+    nlinarith
+  · intro hc
+    rw [hc] at h1 ⊢
+    have hs0 : (relSo3 a b).angleCore.2 = 0 := by linarith
+    rw [hs0]; simp
+
+end real
+
 /-! ### non-vacuity: concrete instances of the hypotheses -/
 
 /-- rotation by the 3-4-5 angle about z -/
